@@ -1264,7 +1264,7 @@ pub fn run(rep: &mut Report) {
                 }
                 let rank = c.syms.len() * 1000 + c.pend.len() * 100 + c.flush.iter().filter(|b| **b).count() * 10 + c.sched.iter().filter(|b| **b != 0).count();
                 for (kind, d) in &o.faults {
-                    record_violation(&vm, format!("C14:{}:{}", sc.name, kind), rank, format!("{}: {}", sc.name, d), case_json(&c));
+                    record_violation(&vm, format!("C14:{}:{}", sc.name, kind), rank, || (format!("{}: {}", sc.name, d), case_json(&c)));
                 }
             }
         });
